@@ -7,7 +7,8 @@ import networkx as nx
 
 # pylint: disable=cyclic-import
 from pyformlang import pda
-from pyformlang.finite_automaton import FiniteAutomaton
+from pyformlang.finite_automaton import FiniteAutomaton, \
+    DeterministicFiniteAutomaton
 # pylint: disable=cyclic-import
 from pyformlang.pda import cfg_variable_converter as cvc
 from pyformlang import regular_expression
@@ -819,7 +820,9 @@ class CFG:
         if isinstance(other, regular_expression.Regex):
             other = other.to_epsilon_nfa().to_deterministic()
         elif isinstance(other, FiniteAutomaton):
-            if not other.is_deterministic():
+            # Only a DeterministicFiniteAutomaton gives its next states as
+            # a list, even if other automata can be deterministic
+            if not isinstance(other, DeterministicFiniteAutomaton):
                 other = other.to_deterministic()
         else:
             raise NotImplementedError
